@@ -3,11 +3,13 @@
 package drv
 
 import (
+	"io"
 	"os"
 
 	"github.com/GuanceCloud/platypus/pkg/inimpl/guancecloud/funcs"
 	"github.com/GuanceCloud/platypus/pkg/parser"
 	"go.uber.org/zap"
+	"go.uber.org/zap/zapcore"
 )
 
 // Quiet silences the repository's debug loggers (they write to stdout).
@@ -18,6 +20,15 @@ func Quiet() {
 }
 
 func init() { Quiet() }
+
+// Verbose installs loggers that are enabled at debug level and format every message (into the void): what a
+// host running with debug logging exercises. Quiet() restores the silent ones.
+func Verbose() {
+	enc := zapcore.NewConsoleEncoder(zap.NewDevelopmentEncoderConfig())
+	l := zap.New(zapcore.NewCore(enc, zapcore.AddSync(io.Discard), zap.DebugLevel)).Sugar()
+	funcs.InitLog(l)
+	parser.InitLog(l)
+}
 
 // SilenceStdout points os.Stdout at /dev/null (printf() and stray debug
 // output of the code under test would otherwise flood the worker's output).
